@@ -206,7 +206,7 @@ func c05Grid(r *rand.Rand, extra int) []CmpVal {
 	}
 	for _, s := range []string{"1", "1.0", "1e0", "10e-1", "0.1e1", "001", "1.00000000000000000000000000000000", "0", "0.0", "0e5", "-1", "-1.0", "2", "0.3", ".3", "0.30", "3e-1",
 		"0.9999999999999999999999999999999999", "1.000000000000000000000000000000001", "9999999999999999999999999999999999", "9999999999999999999999999999999998",
-		"1e34", "1e-30", "-1e-30", "123456789012345678", "123456789012345679", "9007199254740993", "9007199254740992", "100", "1e2", "99.99", "-0.5", "12.5", "0.1", "0.2"} {
+		"1e34", "1e-30", "-1e-30", "1e-6200", "2e-6200", "1e-7000", "1e-6999", "1e-6143", "1e-6176", "9e-6177", "1e6100", "9e6099", "1.5e6000", "1e6144", "1e-6100", "0e-7000", "123456789012345678", "123456789012345679", "9007199254740993", "9007199254740992", "100", "1e2", "99.99", "-0.5", "12.5", "0.1", "0.2"} {
 		lit(s)
 	}
 	ar := func(op, a, b string) {
@@ -257,7 +257,9 @@ func c05Grid(r *rand.Rand, extra int) []CmpVal {
 	// nulls
 	g = append(g, CmpVal{Src: "null", Kind: "null"}, CmpVal{Src: "nothere", Kind: "null"},
 		CmpVal{Src: "dnilp", Kind: "null", Data: &val.KV{K: "dnilp", V: val.V{K: "nilptr"}}}, CmpVal{Src: "dnil", Kind: "null", Data: &val.KV{K: "dnil", V: val.Nil()}},
-		CmpVal{Src: "dnps", Kind: "null", Data: &val.KV{K: "dnps", V: val.V{K: "nilpstruct"}}})
+		CmpVal{Src: "dnps", Kind: "null", Data: &val.KV{K: "dnps", V: val.V{K: "nilpstruct"}}},
+		CmpVal{Src: "dnd", Kind: "null", Data: &val.KV{K: "dnd", V: val.V{K: "nildec"}}}, CmpVal{Src: "$l = dnd", Kind: "null", Data: &val.KV{K: "dnd", V: val.V{K: "nildec"}}},
+		CmpVal{Src: "fnd(1)", Kind: "null", Data: &val.KV{K: "fnd", V: val.Fn("retnildec")}}, CmpVal{Src: "fnp()", Kind: "null", Data: &val.KV{K: "fnp", V: val.Fn("retnilptr")}})
 	return g
 }
 
